@@ -135,6 +135,24 @@ func refKeyRules(n *rc.Node) error {
 			return fmt.Errorf("alg %d does not match the curve's algorithm %d", ai, algWant)
 		}
 	}
+	// the same clause read from the algorithm's side: an algorithm that is tied to one curve
+	// (ES256 / ES384 / ES512 as the library binds them, EdDSA to the Edwards curves) matches no other
+	if a := n.Lookup(3); a != nil && a.IsInt() {
+		if ai, ok := a.Int64(); ok {
+			want := map[int64][][2]int64{refcose.AlgES256: {{2, 1}}, refcose.AlgES384: {{2, 2}}, refcose.AlgES512: {{2, 3}}, refcose.AlgEdDSA: {{1, 6}, {1, 7}}}[ai]
+			if want != nil {
+				match := false
+				for _, w := range want {
+					if w[0] == kty && w[1] == crv {
+						match = true
+					}
+				}
+				if !match {
+					return fmt.Errorf("alg %d on kty %d curve %d, which is not that algorithm's curve", ai, kty, crv)
+				}
+			}
+		}
+	}
 	return nil
 }
 
